@@ -98,13 +98,11 @@ def _miri(st, prop, tier, seed, chk):
     procs = []
     t0 = time.time()
     # first invocation builds; run it alone up to the point where the binary exists
-    b = subprocess.run(["cargo", "+nightly", "miri", "run", "--bin", "mon", "--", "noop"], cwd=chk.HARNESS, env=env,
-                       capture_output=True, text=True, timeout=3000)
+    b = chk.run_grp(["cargo", "+nightly", "miri", "run", "--bin", "mon", "--", "noop"], cwd=chk.HARNESS, env=env, timeout=3000)
     if "unknown property noop" not in (b.stderr + b.stdout):
         chk.log("note: Miri unavailable: %s" % (b.stderr or "")[-400:])
         return None
-    st_ub = subprocess.run(["cargo", "+nightly", "miri", "run", "--bin", "mon", "--", "selftest-heap"], cwd=chk.HARNESS, env=env,
-                           capture_output=True, text=True, timeout=600)
+    st_ub = chk.run_grp(["cargo", "+nightly", "miri", "run", "--bin", "mon", "--", "selftest-heap"], cwd=chk.HARNESS, env=env, timeout=600)
     miri_fired = "Undefined Behavior" in (st_ub.stderr or "")
     if not miri_fired:
         chk.log("note: Miri self-test did not fire; stage skipped")
@@ -116,7 +114,7 @@ def _miri(st, prop, tier, seed, chk):
             os.remove(out)
         cmd = ["cargo", "+nightly", "miri", "run", "--bin", "mon", "--", prop, "--tier", tier, "--seed", str(seed),
                "--stage", st["name"], "--threads", "1", "--out", out] + st.get("args", []) + list(extra)
-        procs.append((subprocess.Popen(cmd, cwd=chk.HARNESS, env=env, stdout=subprocess.PIPE, stderr=subprocess.PIPE, text=True), out, cmd))
+        procs.append((subprocess.Popen(cmd, cwd=chk.HARNESS, env=env, stdout=subprocess.PIPE, stderr=subprocess.PIPE, text=True, start_new_session=True), out, cmd))
         outs.append(out)
     merged = None
     viol = []
@@ -126,8 +124,15 @@ def _miri(st, prop, tier, seed, chk):
         try:
             so, se = p.communicate(timeout=st.get("timeout", 2400))
         except subprocess.TimeoutExpired:
-            p.kill()
-            so, se = p.communicate()
+            # the whole group: cargo -> cargo-miri -> miri keep the pipes open otherwise
+            try:
+                os.killpg(p.pid, 9)
+            except (ProcessLookupError, PermissionError):
+                pass
+            try:
+                so, se = p.communicate(timeout=30)
+            except Exception:
+                so, se = "", ""
             errs += "\nwatchdog: miri shard timed out: %s" % " ".join(cmd[-6:])
             continue
         rc_all = rc_all or p.returncode
@@ -215,7 +220,7 @@ def _fuzz(st, prop, tier, seed, chk):
     t0 = time.time()
     if not os.path.exists(os.path.join(fdir, "Cargo.lock")):
         shutil.copy(os.path.join(chk.HARNESS, "Cargo.lock"), os.path.join(fdir, "Cargo.lock"))
-    b = subprocess.run(["cargo", "+nightly", "fuzz", "build", target], cwd=chk.HARNESS, env=env, capture_output=True, text=True, timeout=3000)
+    b = chk.run_grp(["cargo", "+nightly", "fuzz", "build", target], cwd=chk.HARNESS, env=env, timeout=3000)
     if b.returncode != 0:
         chk.log("note: cargo fuzz build unavailable: %s" % (b.stderr or "")[-400:])
         return None
@@ -231,7 +236,7 @@ def _fuzz(st, prop, tier, seed, chk):
     cmd = ["cargo", "+nightly", "fuzz", "run", target, "--", "-timeout=10", "-max_total_time=%d" % secs, "-fork=%d" % st.get("fork", 16),
            "-max_len=4096", "-len_control=0", "-ignore_crashes=0", "-seed=%d" % (int(seed) % (2 ** 31))]
     try:
-        r = subprocess.run(cmd, cwd=chk.HARNESS, env=env, capture_output=True, text=True, timeout=secs + 600)
+        r = chk.run_grp(cmd, cwd=chk.HARNESS, env=env, timeout=secs + 600)
         se = r.stderr or ""
         rc = r.returncode
     except subprocess.TimeoutExpired:
